@@ -281,6 +281,14 @@ func genC05(c *ctx) {
 		b := newBuilder(c.r.Fork())
 		b.emit(st, "honest/zero-valued-fields", true, zeroFieldsOracle())
 	}
+	{
+		b := newBuilder(c.r.Fork())
+		b.emit(st, "honest/one-caveat-object-many-tokens", true, caveatObjectReuseOracle())
+	}
+	{
+		b := newBuilder(c.r.Fork())
+		b.emit(st, "honest/repeated-discharge-nonce", true, repeatedDischargeNonceOracle())
+	}
 }
 
 // zeroFieldsOracle (C05, "any field values"): caveats whose fields are nil / empty (a conditional without conditions, nil
@@ -826,6 +834,17 @@ func genC02(c *ctx) {
 		b := newBuilder(c.r.Fork())
 		b.emit(st, "bundle-attenuate-failed-token", true, f)
 	}
+	{
+		b := newBuilder(c.r.Fork())
+		b.emit(st, "add-after-refused-batch", true, failedBatchOracle())
+	}
+	for i := 0; i < 5; i++ {
+		if f := cacheForgeryOracle(c.r.Fork()); f != "" {
+			b := newBuilder(c.r.Fork())
+			b.emit(st, "atten/through-verification-cache", true, f)
+			break
+		}
+	}
 	if f := sliceReuseOracle(); f != "" {
 		b := newBuilder(c.r.Fork())
 		b.emit(st, "add-reuses-callers-slice", true, f)
@@ -950,6 +969,10 @@ func genC04(c *ctx) {
 	{
 		b := newBuilder(c.r.Fork())
 		b.emit(st, "3p/truncated-sealed-values", true, truncatedSealOracle(c.r.Fork()))
+	}
+	{
+		b := newBuilder(c.r.Fork())
+		b.emit(st, "3p/one-caveat-object-many-tokens", true, caveatObjectReuseOracle())
 	}
 }
 
@@ -1469,5 +1492,9 @@ func genC08(c *ctx) {
 		// stability: every slot derived from p by encode/clone only must equal the first wire form,
 		// unless a (refused) Add happened in between -- the model decides; here just record
 		b.emit(st, "proof-ops", true, oracle)
+	}
+	{
+		b := newBuilder(c.r.Fork())
+		b.emit(st, "proof-stable-under-unrelated-activity", true, unrelatedActivityOracle(false))
 	}
 }
